@@ -15,6 +15,7 @@ the builder setters cannot touch them any more — the correspondence oracle
 additionally compares the 64 bytes of every re-issued submission.
 -/
 import A10Verif.Lemmas.OpResults
+import A10Verif.Props.C01
 
 namespace A10.OpSys
 open A10
@@ -444,3 +445,87 @@ example :
     (run s (attempts 1 [-4, -125, -4] ++ attempt 1 42)).submits = 4 := by decide
 
 end A10.OpSys
+
+/-! ## Interruption inside a batch of the multi-operation system (session 5) -/
+
+namespace A10.Life
+open A10
+
+theorem upd1_final_done (o : Op) (c : Cqe) (hh : held o.status = true) (hf : fMore c.flags = false) :
+    ∃ r, (upd1 o c).status = .done r := by
+  cases o with
+  | mk multi status waker boxLive resInit futLive frees resDrops =>
+  cases status <;> simp [held, OpSys.isRunning, OpSys.isDone] at hh <;>
+    cases multi <;> cases waker <;> simp [upd1, Op.update, hf]
+
+theorem upd1_multi (o : Op) (c : Cqe) : (upd1 o c).multi = o.multi := by
+  cases o with
+  | mk multi status waker boxLive resInit futLive frees resDrops =>
+  cases status <;> cases hf : fMore c.flags <;> cases multi <;> cases waker <;>
+    simp [upd1, Op.update, hf]
+
+theorem foldl_upd1_multi (l : List Cqe) : ∀ (o : Op), (l.foldl upd1 o).multi = o.multi := by
+  induction l with
+  | nil => intro o; rfl
+  | cons c l ih => intro o; simp only [List.foldl_cons]; rw [ih, upd1_multi]
+
+theorem slotStep_fold_last (l : List Res) (x c : Res) (hn : fNotif c.flags = false) :
+    (l ++ [c]).foldl OpSys.slotStep x = c := by
+  simp [List.foldl_append, OpSys.slotStep, hn]
+
+/-- **Interrupted inside any batch, re-issued by the next poll.** A running single-shot operation
+`i` of the multi-operation system whose completions in a batch end with an interrupted/cancelled
+final completion `c` (whatever came before it for `i` — e.g. the data of a first completion of a
+two-step operation — and whatever other operations' completions surround it): the next poll of
+its future does not report the interruption but returns `Pending`, publishes a fresh submission
+with the new waker and EMPTY results (nothing of the earlier attempt survives), or — with a full
+queue — waits for a slot; and the state allocation and the resources are the ones it had. -/
+theorem C09_batch_restart (cs : List Cqe) (s : Sys) (a : Acc) (i : Nat) (o : Op) (x0 : Res)
+    (w : Nat) (room : Bool) (ho : s.ops[i]? = some o) (hm : o.multi = false)
+    (hst : o.status = .running (.single x0)) (pre : List Cqe) (c : Cqe)
+    (hown : cs.filter (addressed i) = pre ++ [c])
+    (hfin : fMore c.flags = false) (hnn : fNotif c.flags = false)
+    (he : OpSys.isRestartErr (toRes c)) :
+    ∃ o', (processAll s a cs).1.ops[i]? = some o' ∧
+      o'.poll w room =
+        (if room then
+          ({ o' with waker := some w, status := .running (.single ⟨0, 0⟩) }, .pending, [.submit])
+        else ({ o' with status := .notStarted }, .pending, [.blocked w])) ∧
+      o'.boxLive = o.boxLive ∧ o'.resInit = o.resInit ∧ o'.frees = o.frees ∧
+      o'.resDrops = o.resDrops := by
+  have hh : held o.status = true := by simp [hst, held, OpSys.isRunning]
+  refine ⟨(cs.filter (addressed i)).foldl upd1 o, ?_, ?_, ?_⟩
+  · rw [C02_own_completions_only, ho]; rfl
+  · have hres := foldl_upd1_results (cs.filter (addressed i)) o (.single x0) (by simp [hst, resultsOf])
+    rw [foldl_update_single] at hres
+    obtain ⟨k1, _, _, _, _, _⟩ := foldl_upd1_held pre o hh
+    have hd : ∃ r, ((cs.filter (addressed i)).foldl upd1 o).status = .done r := by
+      rw [hown, List.foldl_append]
+      exact upd1_final_done _ c k1 hfin
+    obtain ⟨r, hr⟩ := hd
+    rw [hr] at hres
+    simp only [resultsOf, Option.some.injEq] at hres
+    rw [hown, List.map_append, List.map_cons, List.map_nil,
+      slotStep_fold_last _ _ _ (by simpa [toRes] using hnn)] at hres
+    subst hres
+    have hmul : ((cs.filter (addressed i)).foldl upd1 o).multi = false := by
+      rw [foldl_upd1_multi, hm]
+    have := OpSys.C09_restart_step _ w room (.single (toRes c)) (toRes c) (.single (toRes c)) hr
+      (by simp [Results.next]) he (by simp [hmul])
+    rw [this, hmul]; simp [Results.empty]
+  · obtain ⟨_, k2, k3, k4, k5, _⟩ := foldl_upd1_held (cs.filter (addressed i)) o hh
+    exact ⟨k2, k3, k4, k5⟩
+
+/-- Non-vacuity: a two-step operation whose first completion carries data and whose final one is
+`-ECANCELED`, between completions of a neighbour: the next poll re-issues it with empty results. -/
+example :
+    let s : Sys := { ops := [{ multi := false, status := .running (.single ⟨0, 0⟩) },
+                             { multi := true, status := .running (.multi []) }] }
+    let cs : List Cqe := [⟨.op 1, 4, 2⟩, ⟨.op 0, 512, 2⟩, ⟨.op 1, 5, 2⟩, ⟨.op 0, -125, 0⟩, ⟨.op 1, 6, 2⟩]
+    cs.filter (addressed 0) = [⟨.op 0, 512, 2⟩] ++ [⟨.op 0, -125, 0⟩] ∧
+    OpSys.isRestartErr (toRes ⟨.op 0, -125, 0⟩) ∧
+    (((processAll s {} cs).1.ops.map (fun o => (o.poll 3 true).2))[0]?) =
+      some (.pending, [.submit]) := by
+  refine ⟨by decide, by decide, by decide⟩
+
+end A10.Life
